@@ -198,7 +198,7 @@ def run_job(job):
             e.derive_auth_blocks_from_config(cfg, job["cust"])
             ok = ok and sorted(e.auth_blocks) == sorted([want_tag] + ([2] if (has_code and has_id) else []))
             if not ok:
-                runner.record_witness(pre=pat)
+                runner.record_witness(pre=pat, cfg={str(k): v for k, v in cfg.items()})
             return ok
 
         res = runner.run(h, job["timeout"] - 60, job["timeout"] - 60)
@@ -222,6 +222,9 @@ def replay(job):
     cfg = {}
     for k, v in CFG_SHAPES[job["cfg"]].items():
         cfg[k] = v[1] if isinstance(v, tuple) else bytes([7]) * v
+    for k, v in (w.get("cfg") or {}).items():
+        if isinstance(v, dict) and "hex" in v:
+            cfg[eval(k)] = bytes.fromhex(v["hex"])
     if kind == "setconfig":
         kinds = w.get("kinds", [])
         f = bf.Bf3File({"Foreign": "x"}, [])
@@ -278,5 +281,9 @@ def replay(job):
         want = 1 if job["cust"] else 3
         has = (0x0202, 0x82) in cfg and ((0x0620, 0x07) in cfg or (0x0620, 0x04) in cfg)
         bad = want not in tags or len(tags) != len(set(tags)) or (has and 2 not in tags)
+        if has and 2 in tags:
+            u = wf.auth_blocks[2]
+            ver = cfg.get((0x0620, 0x07), cfg.get((0x0620, 0x04)))
+            bad = bad or u.config_security_code != cfg[(0x0202, 0x82)] or u.version != ver[0]
         return dict(reproduced=bad, signature="C11:auth-blocks", detail="blocks %r" % (wf.auth_blocks,))
     return dict(reproduced=False)
